@@ -51,7 +51,7 @@ Print Assumptions C05_root.
 
 (* ZD (bi-zoned, polygon-constrained): the field finally selected was evaluated in the chosen list and passes at max height *)
 Theorem C05_ZD_selected_evaluated_feasible :
-  forall nested cap cont it e drill z, searchZD nested cap cont it e drill = Ok z ->
+  forall nested cap cont it e drill z, searchZD nested cap cont it e drill = Ok z -> zd_escaped z = false ->
   exists o v, search1d (nthZ nested (zd_outer z)) cap cont it (e (zd_outer z)) = Ok o /\
               In (zd_sel z, v) (calc_out o) /\ (v <= 0)%Q /\ v = e (zd_outer z) (zd_sel z) Hmax.
 Proof. exact searchZD_selected. Qed.
